@@ -726,16 +726,19 @@ namespace Pistache::Async
                 template <typename P>
                 void finishResolve(P& promise)
                 {
-                    auto chainer = makeChainer(promise);
-                    promise.then(std::move(chainer), [=](std::exception_ptr exc) {
-                        auto core = this->chain_;
-                        std::unique_lock<std::mutex> guard(core->mtx);
-                        core->exc   = std::move(exc);
-                        core->state = State::Rejected;
-
-                        for (const auto& req : core->requests)
+                    auto chainer                = makeChainer(promise);
+                    std::weak_ptr<Core> weakPtr = this->chain_;
+                    promise.then(std::move(chainer), [weakPtr](std::exception_ptr exc) {
+                        if (auto core = weakPtr.lock())
                         {
-                            req->reject(core);
+                            std::unique_lock<std::mutex> guard(core->mtx);
+                            core->exc   = std::move(exc);
+                            core->state = State::Rejected;
+
+                            for (const auto& req : core->requests)
+                            {
+                                req->reject(core);
+                            }
                         }
                     });
                 }
